@@ -68,6 +68,24 @@ def r1_symbol_provenance(ctx, m, me) -> None:
                                   "nodes would share one symbol, so calls to the second resolve to the first", fn,
                                   expected=f"<table>[{n_[:60]}]", found=f"<table>[{k_[:60]}]")
     ctx.stats["C12.R1 mangle sites"] = sites
+    # the symbol a function node is exported under is the one calls and loads of it apply: both sides go through _mangle_name
+    en = me.methods.get("export_node")
+    if en is not None:
+        node_p = en.args.args[1].arg
+        want = f"_mangle_name({node_p}, self.hugr[{node_p}].op.f_name)"
+        arms_seen = set()
+        for p in ctx.paths(f"{EXP}.ModelExport.export_node", bound=8192):
+            arm = [u(t.args[1]).split(".")[-1] for t, k in p.tests if k and isinstance(t, ast.Call) and u(t.func) == "isinstance" and len(t.args) == 2]
+            if not arm or arm[-1] not in ("FuncDefn", "FuncDecl") or arm[-1] in arms_seen:
+                continue
+            syms = [e for x in list(p.effects) + ([p.value] if p.value is not None else []) for _, e in tfind(x, T("self.export_symbol(E_name, ANY_, ANY_)"))]
+            if not syms:
+                continue
+            arms_seen.add(arm[-1])
+            got = unold(syms[0]["E_name"])
+            ctx.check(got == want, "C12.R1", f"ModelExport.export_node: {arm[-1]} exported under its mangled name", m.path, en.lineno,
+                      f"a {arm[-1]} node's symbol must be exported under `{want}` -- the name find_func_input gives to calls and loads of it; "
+                      "under any other name those apply a symbol that is not in the module", en, expected=want, found=got[:120])
 
 
 def r2_order_hints(ctx, m, me) -> None:
